@@ -1,4 +1,5 @@
 import AgdbDb.Props.C08
+import AgdbDb.Props.C08Arrays
 open AgdbDb
 #print axioms C08_refines
 #print axioms C08_wf_invariant
@@ -8,3 +9,6 @@ open AgdbDb
 #print axioms C08_remove_node_cascade
 #print axioms C08_counts
 #print axioms C08_node_count
+#print axioms C08_arrays_init
+#print axioms C08_arrays_refine_step
+#print axioms C08_arrays_refine
